@@ -27,6 +27,7 @@
 
 #include <cstring>
 #include <cassert>
+#include <climits>
 
 namespace bloc
 {
@@ -128,7 +129,13 @@ MemberSETExpression * MemberSETExpression::parse(Parser& p, Context& ctx, Expres
   /* item no MUST be constant */
   if (t->code != TOKEN_INTEGER)
     throw ParseError(EXC_PARSE_BAD_MEMB_CALL_S, KEYWORDS[BTM_SET], t);
-  unsigned item_no = (unsigned)std::stoul(t->text, nullptr, 10);
+  /* the rank must fit in the index type */
+  unsigned long item_ul = 0;
+  try { item_ul = std::stoul(t->text, nullptr, 10); }
+  catch (std::out_of_range& e) { item_ul = ULONG_MAX; }
+  if (item_ul > UINT_MAX)
+    throw ParseError(EXC_PARSE_OUT_OF_INDICE, t->text.c_str(), t);
+  unsigned item_no = (unsigned)item_ul;
 
   try
   {
